@@ -239,6 +239,21 @@ def ctor_class_axis(ctx):
                         vv = [v[1] if v[2] == u else (v[1] * PI / 180 if u == 'rad' else v[1] * 180 / PI) for v in vals]
                         run(ctx, 'C01/%s.%s/vector%d/%s' % (cn, fn, n, u), '%s.%s' % (cn, fn), dict(cls=cn, fn=fn, angle='vector', n=n, unit=u), kind,
                             f, vv, u, key=(cn, fn, 'vec', n, u), expect_n=n)
+    # the angle given as a NumPy scalar of another width, a 0-d array or a Python int: still a finite angle, still a valid member
+    STY = (('np.float32', np.float32), ('np.float16', np.float16), ('np.int32', np.int32), ('int', int), ('np.float64', np.float64))
+    for (tn, ty), av in itertools.product(STY, (0.3, -2.5, 3.0, 1.0, 90.0)):
+        if tn in ('np.int32', 'int') and av != int(av):
+            continue
+        a = ty(av)
+        u = 'deg' if av == 90.0 else 'rad'
+        for fn in ('rotx', 'roty', 'rotz', 'trotx', 'troty', 'trotz', 'rot2', 'trot2'):
+            kind = {'r': 'SO3', 't': 'SE3'}[fn[0]] if not fn.endswith('2') else {'r': 'SO2', 't': 'SE2'}[fn[0]]
+            run(ctx, 'C01/base.%s/stype=%s/a=%g' % (fn, tn, av), 'base.' + fn, dict(fn=fn, stype=tn, unit=u), kind, getattr(b, fn), a, u, key=(fn, tn, av))
+        for cn, f, kind in (('SO2', lambda a=a, u=u: sm.SO2(a, unit=u), 'SO2'), ('SE2', lambda a=a, u=u: sm.SE2(a, unit=u), 'SE2'), ('SE2/xyt', lambda a=a, u=u: sm.SE2(1.0, 2.0, a, unit=u), 'SE2'),
+                            ('SO3.Rx', lambda a=a, u=u: sm.SO3.Rx(a, u), 'SO3'), ('SE3.Ry', lambda a=a, u=u: sm.SE3.Ry(a, u), 'SE3'), ('UnitQuaternion.Rz', lambda a=a, u=u: sm.UnitQuaternion.Rz(a, u), 'UQ'),
+                            ('base.rpy2r', lambda a=a, u=u: b.rpy2r(a, a, a, unit=u), 'SO3'), ('base.eul2r', lambda a=a, u=u: b.eul2r(a, a, a, unit=u), 'SO3'),
+                            ('SO3.AngVec', lambda a=a, u=u: sm.SO3.AngVec(a, [1, 2, 3], unit=u), 'SO3'), ('base.angvec2r', lambda a=a, u=u: b.angvec2r(a, [1, 2, 3], unit=u), 'SO3')):
+            run(ctx, 'C01/%s/stype=%s/a=%g' % (cn, tn, av), cn.split('/')[0], dict(fn=cn, stype=tn, unit=u), kind, f, key=(cn, tn, av))
     for fn in ('Tx', 'Ty', 'Tz'):
         for mn, m in (('0', 0.0), ('1e-6', 1e-6), ('g', -1.5), ('1e6', 1e6)):
             run(ctx, 'C01/SE3.%s/%s' % (fn, mn), 'SE3.' + fn, dict(fn=fn, t=mn), 'SE3', getattr(sm.SE3, fn), m, key=(fn, mn), trivial=(m == 0))
